@@ -380,6 +380,11 @@ def rebound_inputs(func, names, rule="FWD"):
                     return Sliced(Elem.expr(self, e.value), sp.Symbol(ast.unparse(e.slice)))
             if isinstance(e, ast.Call) and isinstance(e.func, ast.Name) and e.func.id in ("list", "tuple") and len(e.args) == 1 and not e.keywords:
                 return self.expr(e.args[0])
+            if isinstance(e, ast.Attribute):
+                try:
+                    return Elem.expr(self, e)
+                except AnalysisError:
+                    return sp.Symbol("ATTR_" + ast.unparse(e), real=True)  # some other quantity of the inputs
             return Elem.expr(self, e)
 
         def on_if(self, st):
